@@ -164,6 +164,7 @@ func (r *rewriter) rewriteFile(f *loader.File, printer FilePrinter) {
 	r.yieldFuncDecls = map[*ast.FuncDecl]bool{}
 	r.yieldFuncLits = map[*ast.FuncLit]bool{}
 	r.collectYieldFunc(pkg, f) // collect func with yield/yieldFrom call
+	r.assertYieldCalled(pkg, f)
 
 	// 2. edit file
 	log.Printf("visit file: %s\n", f.Filename)
@@ -222,6 +223,34 @@ func docComments(file *ast.File) (docs []*ast.CommentGroup) {
 		}
 	}
 	return
+}
+
+// yield / yieldFrom are stubs, recognized by calling only,
+// used as func value would be the no-op stub silently, e.g., each(xs, co.Yield[int])
+func (r *rewriter) assertYieldCalled(pkg loader.Pkg, f *loader.File) {
+	callees := map[ast.Expr]bool{}
+	ast.Inspect(f.File, func(n ast.Node) bool {
+		switch n := n.(type) {
+		case *ast.CallExpr:
+			fun := astutil.Unparen(n.Fun)
+			switch idx := fun.(type) {
+			case *ast.IndexExpr:
+				fun = astutil.Unparen(idx.X)
+			case *ast.IndexListExpr:
+				fun = astutil.Unparen(idx.X)
+			}
+			if sel, ok := fun.(*ast.SelectorExpr); ok {
+				callees[sel.Sel] = true
+			}
+			callees[fun] = true
+		case *ast.Ident:
+			obj := pkg.ObjectOf(n)
+			if obj != nil && (obj == r.yieldFunc || obj == r.yieldFromFunc) {
+				r.assert(pkg, callees[n], n, "yield as func value not supported")
+			}
+		}
+		return true
+	})
 }
 
 // ↓↓↓↓↓↓↓↓↓↓↓↓↓↓↓↓↓↓↓↓↓↓ Collect YieldFunc ↓↓↓↓↓↓↓↓↓↓↓↓↓↓↓↓↓↓↓↓↓↓
